@@ -3537,4 +3537,132 @@ theorem pos_error_class' {r : DRow} {e : EagerD} (h : RefD r e) (i : Nat) :
   · intro hi; have : ¬ i < e.cells.length := by omega
     simp [*]
 
+/-! ## Phase 5 -/
+
+theorem headers_err_attr (r : DRow) : ∀ e, r.headers = .error e → e = .attrError := by
+  induction r with
+  | plain v => intro e h; simp [DRow.headers] at h; exact h.symm
+  | «lazy» c en hd m => intro e h; cases hd <;> simp [DRow.headers] at h; exact h.symm
+  | head r hh ih => intro e h; simp [DRow.headers] at h
+  | encode r es ih => intro e h; simp only [DRow.headers] at h; exact ih e h
+  | keep r a b c d hd ih => intro e h; cases hd with
+    | none => simp only [DRow.headers] at h; exact ih e h
+    | some x => simp [DRow.headers] at h
+  | label r i t ih => intro e h; simp only [DRow.headers] at h; exact ih e h
+  | dropOne r i ih =>
+    intro e h; simp only [DRow.headers] at h
+    cases hr : r.headers with
+    | ok x => simp [hr] at h
+    | error e' => simp [hr] at h; subst h; exact ih e' hr
+
+theorem headers_error_class' {r : DRow} {e : EagerD} (h : RefD r e) (hn : e.hdr = none) : r.headers = .error .attrError := by
+  have := h.hdr; rw [hn] at this
+  obtain ⟨er, her⟩ := toOption_eq_none this
+  rw [her, headers_err_attr r er her]
+
+theorem dense_eq_length_sensitive' {r : DRow} {e : EagerD} (h : RefD r e) (o : List Val) (hl : o.length ≠ e.cells.length) :
+    r.eqList o = false := by
+  unfold DRow.eqList
+  rw [h.len]
+  have : ¬ e.cells.length = o.length := fun x => hl x.symm
+  simp [this]
+
+theorem wrapD_cons (w : DWrap) (ws : List DWrap) (r : DRow) : wrapD (w :: ws) r = wrapD ws (w.app r) := rfl
+theorem wrapS_cons (w : SWrap) (ws : List SWrap) (r : SRow) : wrapS (w :: ws) r = wrapS ws (w.app r) := rfl
+
+theorem wrapD_headers' (ws : List DWrap) : ∀ (r : DRow), (∀ w ∈ ws, w.transparent = true) → (wrapD ws r).headers = r.headers := by
+  induction ws with
+  | nil => intro r _; rfl
+  | cons w ws ih =>
+    intro r h
+    rw [wrapD_cons, ih (w.app r) (fun x hx => h x (List.mem_cons_of_mem _ hx))]
+    have hw := h w (List.mem_cons_self ..)
+    cases w with
+    | head _ => simp [DWrap.transparent] at hw
+    | encode _ => rfl
+    | keep a b c d hd => cases hd with
+      | none => rfl
+      | some _ => simp [DWrap.transparent] at hw
+    | label _ _ => rfl
+    | dropOne _ => simp [DWrap.transparent] at hw
+
+theorem wrapD_missing' (ws : List DWrap) : ∀ (r : DRow), (wrapD ws r).missing = r.missing := by
+  induction ws with
+  | nil => intro r; rfl
+  | cons w ws ih => intro r; rw [wrapD_cons, ih (w.app r)]; cases w <;> rfl
+
+theorem wrapD_labelOf' (ws : List DWrap) : ∀ (r : DRow), (∀ w ∈ ws, ∀ i t, w ≠ .label i t) → (wrapD ws r).labelOf = r.labelOf := by
+  induction ws with
+  | nil => intro r _; rfl
+  | cons w ws ih =>
+    intro r h
+    rw [wrapD_cons, ih (w.app r) (fun x hx => h x (List.mem_cons_of_mem _ hx))]
+    have hw := h w (List.mem_cons_self ..)
+    cases w with
+    | label i t => exact absurd rfl (hw i t)
+    | _ => rfl
+
+theorem wrapS_inv' (ws : List SWrap) : ∀ (r : SRow), (∀ w ∈ ws, w.transparent = true) → (wrapS ws r).invOf = r.invOf := by
+  induction ws with
+  | nil => intro r _; rfl
+  | cons w ws ih =>
+    intro r h
+    rw [wrapS_cons, ih (w.app r) (fun x hx => h x (List.mem_cons_of_mem _ hx))]
+    have hw := h w (List.mem_cons_self ..)
+    cases w with
+    | head _ _ => simp [SWrap.transparent] at hw
+    | _ => rfl
+
+theorem wrapS_missing' (ws : List SWrap) : ∀ (r : SRow), (wrapS ws r).missing = r.missing := by
+  induction ws with
+  | nil => intro r; rfl
+  | cons w ws ih => intro r; rw [wrapS_cons, ih (w.app r)]; cases w <;> rfl
+
+theorem label_key_depth_independent' (ws : List SWrap) (r : SRow) (h : ∀ w ∈ ws, w.transparent = true) (k : Key) (t : Option String) :
+    applyS (.label k t) (wrapS ws r) = .ok (some (.label (wrapS ws r) (labelKey r.invOf k) t)) := by
+  simp only [applyS, wrapS_inv' ws r h]
+
+theorem probeD_headers' : ∀ (d : Nat) (r : DRow), (probeD d r).headers = r.headers ∧ (probeD d r).missing = r.missing ∧ (probeD d r).len = r.len := by
+  intro d
+  induction d with
+  | zero => intro r; exact ⟨rfl, rfl, rfl⟩
+  | succ d ih =>
+    intro r
+    obtain ⟨h1, h2, h3⟩ := ih (.encode r (encsOf [] r))
+    refine ⟨by rw [probeD, h1]; rfl, by rw [probeD, h2]; rfl, ?_⟩
+    rw [probeD, h3]
+    simp only [DRow.len, encsOf]
+    cases r.headers <;> simp
+
+theorem probeS_inv' : ∀ (d : Nat) (r : SRow), (probeS d r).invOf = r.invOf ∧ (probeS d r).missing = r.missing := by
+  intro d
+  induction d with
+  | zero => intro r; exact ⟨rfl, rfl⟩
+  | succ d ih =>
+    intro r
+    obtain ⟨h1, h2⟩ := ih (.encode r [] (nspOf []))
+    exact ⟨by rw [probeS, h1]; rfl, by rw [probeS, h2]; rfl⟩
+
+theorem drop_row_sees_original' (cols : List Key) (pred : Option Pred) (r : DRow) :
+    applyD (.drop cols pred) r =
+      (match evalPredD pred r with
+       | .error e => .error e
+       | .ok false => .ok none
+       | .ok true => applyD (.drop cols none) r) := by
+  simp only [applyD, evalPredD]
+  cases evalPredD pred r with
+  | error e => rfl
+  | ok b => cases b <;> rfl
+
+theorem drop_row_sees_original_sparse' (cols : List Key) (pred : Option Pred) (r : SRow) :
+    applyS (.drop cols pred) r =
+      (match evalPredS pred r with
+       | .error e => .error e
+       | .ok false => .ok none
+       | .ok true => applyS (.drop cols none) r) := by
+  simp only [applyS, evalPredS]
+  cases evalPredS pred r with
+  | error e => rfl
+  | ok b => cases b <;> rfl
+
 end Coba.C13
